@@ -9,6 +9,7 @@ import (
 	"math/rand"
 	"os"
 	"sort"
+	"strings"
 
 	"verifharness/bridge"
 	"verifharness/tr"
@@ -340,6 +341,14 @@ func GenMPTHistory(r *rand.Rand, maxOps int) []MOp {
 	var pool [][]byte
 	nops := 3 + r.Intn(maxOps)
 	vals := []string{"a", "b", "c", "x3a", "x003a00ff", "x0a", "hello"}
+	if r.Intn(4) == 0 {
+		// long values (values are binary tokens: "x" + hex)
+		for i := 0; i < 3; i++ {
+			vals = append(vals, "x"+strings.Repeat(fmt.Sprintf("%02x", 0x80+r.Intn(64)), 40+r.Intn(200)))
+		}
+	}
+	// every sixth history uses realistic keys: 64 hex characters sharing long prefixes
+	longKeys := r.Intn(6) == 0
 	var ops []MOp
 	for i := 0; i < nops; i++ {
 		var p []byte
@@ -356,6 +365,17 @@ func GenMPTHistory(r *rand.Rand, maxOps int) []MOp {
 			}
 		} else {
 			p = mkPath()
+		}
+		if longKeys {
+			q := bytes.Repeat([]byte("0"), 64)
+			if len(pool) > 0 && r.Intn(3) > 0 {
+				copy(q, pool[r.Intn(len(pool))])
+			}
+			// change the key from some position on: shared prefixes of any length
+			for j := []int{0, 1, 2, 31, 32, 60, 62, 63}[r.Intn(8)]; j < 64; j += 1 + r.Intn(20) {
+				q[j] = "0123456789abcdef"[r.Intn(16)]
+			}
+			p = q
 		}
 		pool = append(pool, p)
 		op := MOp{P: bridge.Chars(p)}
